@@ -269,6 +269,18 @@ impl<L: LSPLang> Backend<L> {
       .log_message(MessageType::LOG, "Publishing init diagnostics.")
       .await;
     self.publish_diagnostics(text_doc.uri, &versioned).await;
+    #[cfg(feature = "verif-hooks")]
+    {
+      use ast_grep_core::verif::{emit, failpoint, V};
+      failpoint("lsp.open.before_insert");
+      emit(
+        "lsp_open_insert",
+        &[
+          ("uri", V::S(&uri)),
+          ("version", V::I(versioned.version as i64)),
+        ],
+      );
+    }
     self.map.insert(uri.to_owned(), versioned); // don't lock dashmap
     Some(())
   }
@@ -283,6 +295,19 @@ impl<L: LSPLang> Backend<L> {
       .await;
     let lang = Self::infer_lang_from_uri(&text_doc.uri)?;
     let root = AstGrep::new(text, lang);
+    #[cfg(feature = "verif-hooks")]
+    {
+      use ast_grep_core::verif::{emit, failpoint, V};
+      failpoint("lsp.change.before_lookup");
+      emit(
+        "lsp_change_lookup",
+        &[
+          ("uri", V::S(uri)),
+          ("version", V::I(text_doc.version as i64)),
+          ("present", V::B(self.map.contains_key(uri))),
+        ],
+      );
+    }
     let mut versioned = self.map.get_mut(uri)?;
     // skip old version update
     if versioned.version > text_doc.version {
@@ -300,6 +325,14 @@ impl<L: LSPLang> Backend<L> {
     Some(())
   }
   async fn on_close(&self, params: DidCloseTextDocumentParams) {
+    #[cfg(feature = "verif-hooks")]
+    ast_grep_core::verif::emit(
+      "lsp_close",
+      &[(
+        "uri",
+        ast_grep_core::verif::V::S(params.text_document.uri.as_str()),
+      )],
+    );
     self.map.remove(params.text_document.uri.as_str());
   }
 
